@@ -1,5 +1,6 @@
 import SplVerif.Driver.Dump
 import SplVerif.Model.Features
+import SplVerif.Model.Format
 
 namespace Spl.Ops
 open Spl Spl.Wire Spl.Feat
@@ -86,6 +87,14 @@ def featOps (op : String) (args : List String) (_impl : String) : Option String 
         let strs := items.map (fun i => s!"{hexOfText i.label}:{i.kind}:{o i.detail}:{o i.insertText}:{o i.doc}")
         "[" ++ ",".intercalate (strs.toArray.qsort (· < ·)).toList ++ "]"
     | _, _ => none
+  | "FMT", [t, sp, ts] =>
+    match ts.toNat? with
+    | some ts => withDoc t fun d =>
+      match Fmt.format d (sp == "1") ts with
+      | .error e => panicStr e
+      | .ok none => "null"
+      | .ok (some (r, txt)) => s!"{prStr r}=>{hexOfText txt}"
+    | none => none
   | "FOLD", [t] => withDoc t fun d =>
       match fold d with
       | .error e => panicStr e
